@@ -167,3 +167,57 @@ def c04(tier, seed, work):
 
 
 CHECKS = {"C09": c09, "C10": c10, "C11": c11, "C04": c04}
+
+
+# ----------------------------------------------------------------- handshake properties
+def hs_check(pid, tier, seed, work, fam_specs, mc=True, mutants=()):
+    mcs = []
+    if mc:
+        mcs.append(F.model_check("Handshake", "MC_Handshake.cfg", work, workers=8))
+    killed = []
+    for cfg, inv in mutants:
+        ok = F.expect_violation("Handshake", cfg, work, inv)
+        if not ok:
+            raise vlib.Inconclusive("model mutant %s did not violate %s: the invariant is vacuous" % (cfg, inv))
+        killed.append({"cfg": cfg, "violates": inv})
+    fams = [F.handshake_family(work, **fs) for fs in fam_specs]
+    require_accepted(fams)
+    viols = []
+    for f in fams:
+        viols += flatten(f)
+    attach_scripts(viols)
+    n = sum(f["scripts"] for f in fams)
+    cov = {
+        "states": sum(m["distinct"] for m in mcs), "transitions": sum(m["generated"] for m in mcs),
+        "model_checking": mcs, "model_mutants_killed": killed,
+        "traces_validated_against_impl": n, "events_validated": sum(f["events"] for f in fams),
+        "evaluations": n, "distinct_nontrivial": n,
+        "rule": "Handshake.tla is checked exhaustively (21 mutation classes x KG x 24 proposals). GenHandshake.tla enumerates "
+                "scenarios (suite, credentials lengths, privilege, lookup, KG; one mutation of an honest transcript: every "
+                "bit of the authenticated fields, every status code, every other tag, every truncation length, every "
+                "algorithm triple) as scripts whose BMC side is the RAKP term algebra of Crypto.tla; each script is a "
+                "distinct scenario id; each recorded execution is validated by TLC (TraceHandshake.tla).",
+        "families": fam_cov(fams), "samples": [sample_script(f) for f in fams[:3]],
+    }
+    return {"level": "model_checking", "coverage": cov, "viols": viols, "assumptions": COMMON_ASSUME}
+
+
+def c01(tier, seed, work):
+    fams = [dict(name="c01-honest", family="honest", tier=tier, seed=seed),
+            dict(name="c01-retry", family="retry", tier=tier, seed=seed)]
+    if tier != "quick":
+        fams.append(dict(name="c01-honest-exact", family="honest", tier="quick", seed=seed + 1, opts={"exact": True}))
+        fams.append(dict(name="c01-honest-s2", family="honest", tier="quick", seed=seed + 2))
+    return hs_check("C01", tier, seed, work, fams,
+                    mutants=[("Mutant_Handshake_CheckRakp4.cfg", "C01_KeyAgreement")] if tier != "quick" else ())
+
+
+def c02(tier, seed, work):
+    fams = [dict(name="c02-mutate", family="mutate", tier=tier, seed=seed),
+            dict(name="c02-mutate-exact", family="mutate", tier=tier, seed=seed, opts={"exact": True})]
+    muts = [("Mutant_Handshake_CheckRakp2.cfg", "C02_IncorrectPassword"), ("Mutant_Handshake_CheckStatus.cfg", "C02_OnlyIfAuthentic"),
+            ("Mutant_Handshake_CheckTag.cfg", "C02_OnlyIfAuthentic")]
+    return hs_check("C02", tier, seed, work, fams, mutants=muts if tier != "quick" else ())
+
+
+CHECKS.update({"C01": c01, "C02": c02})
